@@ -1116,6 +1116,34 @@ mod verif_deflate_core {
         let mut i = 0;
         while i < src.len() { dst[i] = src[i]; i += 1; }
     }
+    const FASTCAP_CONCRETE_SIZE: bool = false;
+    /// element-wise re-statements of DictOxide::read_unaligned_u32/u64 (the real ones go through slice -> array
+    /// conversions that cost CBMC seconds per call on the 33 KiB window and defeat constant propagation);
+    /// k_read_unaligned_models_equal_real checks them against the real functions
+    fn model_read_u32_exact(this: &DictOxide, pos: usize) -> u32 {
+        let p = pos & LZ_DICT_SIZE_MASK;
+        (this.b.dict[p] as u32) | (this.b.dict[p + 1] as u32) << 8 | (this.b.dict[p + 2] as u32) << 16 | (this.b.dict[p + 3] as u32) << 24
+    }
+    fn model_read_u64_exact(this: &DictOxide, pos: usize) -> u64 {
+        let p = pos & LZ_DICT_SIZE_MASK;
+        let mut v = 0u64;
+        let mut k = 0;
+        while k < 8 { v |= (this.b.dict[p + k] as u64) << (8 * k); k += 1; }
+        v
+    }
+    #[kani::proof]
+    #[kani::unwind(10)]
+    fn k_read_unaligned_models_equal_real() {
+        let mut d = DictOxide::new(0);
+        let pos: usize = kani::any();
+        let p = pos & LZ_DICT_SIZE_MASK;
+        let bytes: [u8; 8] = kani::any();
+        let mut k = 0;
+        while k < 8 { d.b.dict[p + k] = bytes[k]; k += 1; }
+        assert!(d.read_unaligned_u32(pos) == model_read_u32_exact(&d, pos), "OBL:fastcap.read_u32_model_equals_real [C10]");
+        assert!(d.read_unaligned_u64(pos) == model_read_u64_exact(&d, pos), "OBL:fastcap.read_u64_model_equals_real [C10]");
+        assert!(model_read_u32_exact(&d, pos) == u32::from_le_bytes([bytes[0], bytes[1], bytes[2], bytes[3]]), "OBL:fastcap.read_u32_is_little_endian_window_bytes [C10]");
+    }
     fn fast_cap_body(dist: usize) {
         let mut d = any_compressor!();
         kani::assume(d.params.flags & TDEFL_FORCE_ALL_RAW_BLOCKS == 0);
@@ -1129,8 +1157,7 @@ mod verif_deflate_core {
         d.dict.b.hash[hash as usize] = src as u16;
         d.dict.lookahead_pos = pos0;
         d.dict.lookahead_size = 0;
-        let size0: usize = kani::any();
-        kani::assume(size0 <= LZ_DICT_SIZE);
+        let size0: usize = if FASTCAP_CONCRETE_SIZE { LZ_DICT_SIZE } else { let s: usize = kani::any(); kani::assume(s <= LZ_DICT_SIZE); s };
         d.dict.size = size0;
         d.params.flush = TDEFLFlush::Sync;
         d.params.src_pos = 0;
@@ -1163,12 +1190,16 @@ mod verif_deflate_core {
     #[kani::stub(LZOxide::write_code, model_write_code)]
     #[kani::stub(flush_block, model_flush_block_pending)]
     #[kani::stub(<[u8]>::copy_from_slice, model_copy_from_slice)]
+    #[kani::stub(DictOxide::read_unaligned_u32, model_read_u32_exact)]
+    #[kani::stub(DictOxide::read_unaligned_u64, model_read_u64_exact)]
     fn k_fast_cap_300() { fast_cap_body(300); }
     #[kani::proof]
     #[kani::unwind(34)]
     #[kani::stub(LZOxide::write_code, model_write_code)]
     #[kani::stub(flush_block, model_flush_block_pending)]
     #[kani::stub(<[u8]>::copy_from_slice, model_copy_from_slice)]
+    #[kani::stub(DictOxide::read_unaligned_u32, model_read_u32_exact)]
+    #[kani::stub(DictOxide::read_unaligned_u64, model_read_u64_exact)]
     fn k_fast_cap_5000() { fast_cap_body(5000); }
 
     // ------------------------------------------------------------------
